@@ -6,6 +6,9 @@ Open Scope string_scope.
 Definition d_operand (t : tree) : option operand :=
   match t with
   | L [A "num"; c] => do c' <- d_num c; Some (ONum c')
+  (* a decision-variable message with further fields set (kind, bound, substituted value, name): as an operand it is
+     still the monomial x_id *)
+  | L [A "var"; L (i :: _)] => do i' <- d_N i; Some (OVar i')
   | L [A "var"; i] => do i' <- d_N i; Some (OVar i')
   | L [A "param"; i] => do i' <- d_N i; Some (OParam i')
   | L [A "lin"; l] => do l' <- d_linear l; Some (OLin l')
